@@ -189,6 +189,16 @@ class BatchJacobianToAffine:
   returns = "list[point]"
   requires = CURVE_REQ
   raises = {"ArithmeticError": None}
+  # ring pass (C11): every finite entry is (X w^2, Y w^3) with w Z == 1 (mod p) - JacobianToAffine's statement
+  congruence_mod = "self.mod"
+  entry_ghost = ["g_K = 0"]
+  on_call = {f"{E}::EcCurve.BatchInverse": [
+      "g_K = invert_k(ufi('pp', len(args[0])), self.mod)",
+      "assert [C11] forall(k, 0, len(p_list), ret[k] is None or ret[k] * p_list[k][2] == 1 + self.mod * g_K)"]}
+  on_assign = {"y": ["assert [C11] w * p[2] == 1 + self.mod * g_K",
+                     "euclid(w * p[2] - 1, self.mod, 0, g_K)",
+                     "assert [C11] (w * p[2] - 1) % self.mod == 0",
+                     "assert [C11] x == p[0] * (w * w)", "assert [C11] y == p[1] * (w * w * w)"]}
   ensures = [("C10,C11", "len(result) == len(p_list)"),
              ("C10,C11", "forall(k, 0, len(p_list), wf_point(result[k]) and (result[k][0] is None) == (p_list[k][2] == 0))")]
   caller_ensures = ["len(result) == len(p_list)",
@@ -196,8 +206,10 @@ class BatchJacobianToAffine:
   caller_assumed = [_J2A]
   loops = {0: dict(invariant=["len(res) == len(p_list)", "len(inverses) == len(p_list)",
                               "forall(k, 0, len(p_list), (inverses[k] is None) == (p_list[k][2] == 0))",
-                              "forall(k, 0, i, wf_point(res[k]) and (res[k][0] is None) == (p_list[k][2] == 0))"],
-                   types={"res": "list[point]"})}
+                              "forall(k, 0, i, wf_point(res[k]) and (res[k][0] is None) == (p_list[k][2] == 0))",
+                              ("C11", "forall(k, 0, len(p_list), inverses[k] is None or "
+                                      "inverses[k] * p_list[k][2] == 1 + self.mod * g_K)")],
+                   types={"res": "list[point]"}, keep={"g_K"})}
   var_types = {"res": "list[point]"}
   props = ["C10", "C11"]
 
